@@ -100,6 +100,9 @@ func runOpPair(a *args, res *result) {
 				}
 				for _, B := range mapPairOps() {
 					opPairMap(res, kind, st, A, B, stuckCh)
+					if st == "absent" && indexByte(kind, '/') >= 0 && insertsAbsent(A.w.kind) && insertsAbsent(B.w.kind) {
+						opPairGrowDue(res, kind, A, B, stuckCh)
+					}
 				}
 			}
 		}
@@ -936,6 +939,88 @@ func refreshOnEvict(res *result, kind string) {
 			if cbs != removed {
 				bad("removals and evicted callbacks do not balance when the callback stores entries again", fmt.Sprintf("%d callbacks, %d entries removed (Count %d -> %d, %d inserts by the callbacks)", cbs, removed, c0, c1, inserts))
 			}
+		}
+	}
+}
+
+func insertsAbsent(k uint8) bool {
+	return k == oStore || k == oLoadOrStore || k == oLoadAndStore || k == oLoadOrCompute || k == oCompute
+}
+
+// opPairGrowDue: the pair enumeration for the state "the first call has to grow the
+// table before it can insert": a colliding hasher puts 125 keys into one chain of 25
+// full buckets, which is also past the grow threshold of the minimal table, so the
+// first call unlocks, grows and retries. It is parked at each of the last steps of
+// that sequence (after the grow) while the second call inserts the same key.
+func opPairGrowDue(res *result, kind string, A, B pairOp, stuckCh chan string) {
+	if A.w.kind == oCompute && A.w.fn != fnSet || B.w.kind == oCompute && B.w.fn != fnSet {
+		return
+	}
+	mk := func() mapAPI {
+		sp := mapSpec{Flavor: kind, Hint: noHint, NKeys: 256}
+		if i := indexByte(kind, '/'); i >= 0 {
+			sp.Flavor, sp.Hasher = kind[:i], kind[i+1:]
+		}
+		m := newMap(sp)
+		for k := 10; k < 135; k++ {
+			m.Store(k, nextVal(k))
+		}
+		return m
+	}
+	// calibration: the number of steps of A alone
+	m0 := mk()
+	wa0 := A.w
+	wa0.k, wa0.v = opKey, nextVal(opKey)
+	vshim.ResetGStep()
+	vshim.SetMode(vshim.MGlobal | vshim.MCount)
+	execMapOp(m0, &wa0, 0)
+	L := vshim.GStep()
+	vshim.SetMode(0)
+	if st, ok := mapStats(m0); ok && st.TotalGrowths == 0 {
+		return // this layout does not grow here: nothing to enumerate
+	}
+	lo := L - 60
+	if lo < 1 {
+		lo = 1
+	}
+	for N := lo; N <= L; N++ {
+		m := mk()
+		wa, wb := A.w, B.w
+		wa.k, wb.k = opKey, opKey
+		wa.v, wb.v = nextVal(opKey), nextVal(opKey)
+		logCase("oppair grow-due %s A=%s B=%s N=%d of %d", kind, A.name, B.name, N, L)
+		res.Evaluations++
+		ha, hb, parked, stuck := runPairW(N, func() *hev { return execMapOp(m, &wa, 0) }, func() *hev { return execMapOp(m, &wb, 1) }, stuckCh, "")
+		if !parked {
+			return
+		}
+		res.count("scenarios_parked", 1)
+		res.count("grow_due_scenarios", 1)
+		fp := newFP()
+		fp.addStr(kind + "grow-due" + A.name + B.name)
+		fp.add(uint64(N))
+		res.nontrivial(fp.sum())
+		var hist []*hev
+		if stuck == "" {
+			hist = append(hist, ha, hb, execMapOp(m, &wop{kind: oLoad, k: opKey}, 2))
+		}
+		if reportPair(res, kind, "absent, grow due", A, B, N, hist, stuck) {
+			return
+		}
+		// a key stored twice shows as a Size that is one too high and as a second visit
+		n, dup := 0, 0
+		m.Range(func(k int, v any) bool {
+			n++
+			if k == opKey {
+				dup++
+			}
+			return true
+		})
+		if dup > 1 || m.Size() != 126 || n != 126 {
+			res.violate(violation{Class: "oppair", Sig: "a key is stored twice when two calls insert it while the first one has to grow the table",
+				Msg:  fmt.Sprintf("%s, A=%s parked at its step %d of %d (after it grew the table), B=%s: Range visits k%d %d times, Size()=%d, Range visits %d pairs, 126 keys were stored", kind, A.name, N, L, B.name, opKey, dup, m.Size(), n),
+				Case: map[string]any{"kind": kind, "A": A.name, "B": B.name, "N": N}})
+			return
 		}
 	}
 }
